@@ -43,6 +43,7 @@ RULE = (
     "configure, set, monitor/unmonitor, declare_stream, checkpoint, sleep), optional configure between epochs. "
     "Non-trivial: an accepted configure of an object lies between two events of one stream containing it. "
     "Distinct = canonical JSON."
+    ' Bundles may end with drop (configuration cached without a descriptor).'
 )
 ASSUMPTIONS = [
     "device configuration changes only through 'configure' messages; the set of configuration keys of a device is fixed",
